@@ -64,13 +64,13 @@ _real_listdir = os.listdir
 
 class _Scandir(object):
     def __init__(self, entries):
-        self._entries = entries
+        self._it = iter(entries)
 
     def __iter__(self):
-        return iter(self._entries)
+        return self
 
-    def __next__(self):  # pragma: no cover
-        raise TypeError
+    def __next__(self):
+        return next(self._it)
 
     def __enter__(self):
         return self
